@@ -87,8 +87,9 @@ PROPS["C03"] = {
              "in fragment payloads or across reassembled fragments of any output of any call; finished: Send fails with no output; required: only a query; encrypted: the text is the plaintext of a data message under keys derived from the DH secrets; "
              "positive control: every text sent in plaintext state is found by the scanner. Non-trivial: texts sent in >=2 protection situations in one script, one of them finished or require-encryption."),
     "assumptions": COMMON_ASSUME,
-    "exhaustive_checks": ["C03policies"],
+    "exhaustive_checks": ["C03faults", "C03policies"],
     "tests": [
+        {"name": "TestProp_C03_Faults", "kind": "plain", "quick": {"shards": 8, "timeout": 600}, "thorough": {"shards": 16, "timeout": 3000}},
         {"name": "TestProp_C03_Leak", "quick": {"shards": 8, "checks": 120, "timeout": 400}, "thorough": {"shards": 16, "checks": 2500, "timeout": 3000}},
         {"name": "TestProp_C03_Policies", "kind": "plain", "quick": {"shards": 8, "timeout": 400}, "thorough": {"shards": 16, "timeout": 3000}},
     ],
@@ -118,7 +119,10 @@ PROPS["C18"] = {
              "no other security events; Send refused without output while finished; clear text output in plaintext state without require-encryption. Transmissions (observer-decrypted): each text verbatim at most once and in Send order; "
              "'[resent] ' only for the most recent text, at most once, only after an ?OTR Error received while encrypted, never for non-text messages. Non-trivial: >=2 sessions for one party or a resend occurred."),
     "assumptions": COMMON_ASSUME,
+    "exhaustive_checks": ["C18ended", "C18faults"],
     "tests": [
+        {"name": "TestProp_C18_Ended", "kind": "plain", "quick": {"shards": 4, "timeout": 600}, "thorough": {"shards": 4, "timeout": 3000}},
+        {"name": "TestProp_C18_Faults", "kind": "plain", "quick": {"shards": 8, "timeout": 600}, "thorough": {"shards": 16, "timeout": 3000}},
         {"name": "TestProp_C18_Lifecycle", "quick": {"shards": 8, "checks": 150, "timeout": 400}, "thorough": {"shards": 16, "checks": 3000, "timeout": 3000}},
     ],
 }
@@ -302,8 +306,9 @@ PROPS["C06"] = {
              "for key-exchange messages: bit flip, truncation, tags, version, replay, re-typed; source = the message in flight towards the receiver or an earlier one of the peer. The input must qualify as rejected (no plaintext, no event-worthy effect, nothing to send but an error reply). "
              "Enumeration: handshake delivered up to k=0..5 messages x receiver x 6 kinds x source x truncation points, then the rest of the handshake and traffic. Non-trivial: receiver was encrypted, mid-SMP or mid-key-exchange and the continuation delivered >=2 texts each way."),
     "assumptions": COMMON_ASSUME,
-    "exhaustive_checks": ["C06akestates"],
+    "exhaustive_checks": ["C06akestates", "C06firstuse"],
     "tests": [
+        {"name": "TestProp_C06_FirstUse", "kind": "plain", "quick": {"shards": 8, "timeout": 600}, "thorough": {"shards": 8, "timeout": 3000}},
         {"name": "TestProp_C06_Twin", "quick": {"shards": 8, "checks": 60, "timeout": 600}, "thorough": {"shards": 16, "checks": 1200, "timeout": 3000}},
         {"name": "TestProp_C06_AKEStates", "kind": "plain", "quick": {"shards": 8, "timeout": 600}, "thorough": {"shards": 16, "timeout": 3000}},
     ],
